@@ -91,6 +91,7 @@ var a = mk('a', 3), b = mk('b', 4n), c = 7;
 Object.defineProperty(globalThis, 'gx', { get() { log.push('get gx'); return 5; }, configurable: true });
 function f(x) { log.push('f'); return x; }
 function g(x) { log.push('g'); return mk('r', 2); }
+var ob = { p: 1, m() { return this === ob ? 'this=ob' : 'this=other'; } };
 """
 
 
@@ -101,7 +102,10 @@ def d_program(r):
             "(1n && a)", "(0n || f(3))", "(NaN && f(4))", "(-0 || f(5))", "typeof a", "void f(6)", "!a", "a + 1", "1 + a", "a < gx",
             "'5' * '2'", "'5' + 2", "2 ** 10", "7 % 3", "-7 % 3", "1 / 0", "(1, 2, f(7))", "c / 2", "c ** 2", "(a ** 2) ** 2",
             "10n / 2", "10n ** 2", "0.1 + 0.2", "2147483647 + 1", "(-2147483648) % (-1)".replace("%", "* 1 +"), "1 << 31", "'a' < 'b'", "null == undefined",
-            "[] + 1", "f(1) / 2", "g(1) ** 2"]
+            "[] + 1", "f(1) / 2", "g(1) ** 2",
+            "(0/0 || f(11))", "(0/0 && f(12))", "(+'abc' || f(13))", "('a'*1 && f(14))", "(-'x' ?? f(15))", "(1/0 && f(16))",
+            "(0, ob.m)()", "('x', ob['m'])()", "(ob.m)()", "(0, ob.m).call(ob)", "delete (0, ob.p)", "typeof (0, ob.m)", "(1, 2, ob.m)()",
+            "(null, eval)('1+1')", "(0, f)(17)", "(true && ob.m)()", "(false || ob.m)()", "(null ?? ob.m)()"]
     stmts = []
     for _ in range(2 + r() % 5):
         k = r() % 10
@@ -114,7 +118,14 @@ def d_program(r):
         elif k < 8:
             stmts.append("while (false) { var wv = %s; }" % e)
         elif k < 9:
-            stmts.append("for (%s; false; f(9)) { print('never'); }" % (["", "f(8)", "var fv = f(10)"][r() % 3]))
+            stmts.append("for (%s; false; f(9)) { print('never'); }" % (["", "f(8)", "var fv = f(10)", "let li = f(18)", "const lc = f(19)",
+                                                                         "let [la] = [f(20)]"][r() % 6]))
+            if r() % 2:
+                stmts.append(["if (false) lb: for (var lv of []) {}", "if (false) for (var lw in {}) {}", "while (false) lb2: { var lx; }",
+                              "if (false) { try { var ly; } catch (e) { var lz; } }", "if (0 > 1) { for (var i0 = 0;;) {} }",
+                              "if (false) switch (1) { case 1: var sw1; }"][r() % 6])
+                stmts.append("print(['lv','lw','lx','ly','lz','i0','sw1'].map(function(n){ try { (0, eval)(n); return n + ':declared'; } "
+                             "catch (e) { return n + ':' + e.constructor.name; } }).join(' '));")
         else:
             stmts.append("print(typeof hv0, typeof hf1, typeof wv, typeof fv);")
     tail = ["print(log.join(','));", "1; " + ["if (false) {}", "while (false);", "if (true) {} else {2}", "for (;false;);", "2;"][r() % 5]]
